@@ -58,6 +58,13 @@ type c31Ticker struct {
 	kind    string    // "", "hello", "adj", "other"
 	n       *neighbor // for kind "adj"
 	dead    bool
+	// orig is the channel of the embedded mock's ticker (never read by bio-rd: its public field was replaced);
+	// the embedded mock still ticks into it unless the ticker was stopped, which makes Stop() observable
+	orig <-chan time.Time
+	// rider: this neighbour's checker has no ticker of its own; it waits on the (shared) ticker `rider`.
+	// never: that ticker has been stopped, so no tick will ever arrive (the harness never fires it either)
+	rider *c31Ticker
+	never bool
 }
 
 type c31Clock struct {
@@ -90,12 +97,46 @@ func (c *c31Clock) Until(t time.Time) time.Duration { return t.Sub(c.Now()) }
 // unbuffered channel.
 func (c *c31Clock) Ticker(d time.Duration) *bbclock.Ticker {
 	t := c.Mock.Ticker(d)
+	orig := t.C
 	ch := make(chan time.Time)
 	t.C = ch
 	c.mu.Lock()
 	defer c.mu.Unlock()
-	c.tickers = append(c.tickers, &c31Ticker{ch: ch, d: d, next: c.now.Add(d), created: c.now, id: len(c.tickers)})
+	c.tickers = append(c.tickers, &c31Ticker{ch: ch, d: d, next: c.now.Add(d), created: c.now, id: len(c.tickers), orig: orig})
 	return t
+}
+
+// stopped reports whether Stop() was called on the ticker: the embedded mock (whose own time nobody else uses) is
+// advanced by one period; a live ticker puts a value into its original channel, a stopped one does not.
+func (c *c31Clock) stopped(t *c31Ticker) bool {
+	for {
+		select {
+		case <-t.orig:
+			continue
+		default:
+		}
+		break
+	}
+	c.Mock.Add(t.d)
+	select {
+	case <-t.orig:
+		return false
+	default:
+		return true
+	}
+}
+
+// adjTickers lists the tickers tagged as adjacency-checker tickers, oldest first.
+func (c *c31Clock) adjTickers() []*c31Ticker {
+	c.mu.Lock()
+	defer c.mu.Unlock()
+	var r []*c31Ticker
+	for _, t := range c.tickers {
+		if t.kind == "adj" {
+			r = append(r, t)
+		}
+	}
+	return r
 }
 
 func (c *c31Clock) setNow(t time.Time) {
@@ -388,6 +429,38 @@ func (r *c31Rig) deliver(ifc *c31Iface, src ethernet.MACAddr, raw []byte) error 
 					r.adj[n] = u[0]
 					break
 				}
+				// No ticker of its own? If the new checker goroutine is parked all the same it waits on something
+				// else. The harness can tell only one case apart soundly: it takes a tick offered on the channel
+				// of an adjacency ticker whose own checker has ended (nobody else can be listening there). Whether
+				// that ticker is alive or has been stopped is read from the embedded mock; a stopped one is never
+				// fired, as in reality.
+				r.refreshDead()
+				if total, parked := c31AdjCheckers(); total == r.liveAdj()+1 && parked == total && time.Since(deadline.Add(-c31RealDeadline)) > 20*time.Millisecond {
+					var ride *c31Ticker
+					for _, tk := range r.clk.adjTickers() {
+						ownerGone := false
+						for _, e := range r.adj {
+							if e == tk && e.dead {
+								ownerGone = true
+							}
+						}
+						if !ownerGone {
+							continue
+						}
+						select {
+						case tk.ch <- r.clk.Now():
+							ride = tk
+						default:
+						}
+						if ride != nil {
+							break
+						}
+					}
+					if ride != nil {
+						r.adj[n] = &c31Ticker{kind: "adj-rider", n: n, rider: ride, never: r.clk.stopped(ride), id: -1, next: time.Unix(1<<40, 0)}
+						break
+					}
+				}
 				if time.Now().After(deadline) {
 					c31Inconclusive("adjacency checker of a new neighbour did not create its ticker")
 				}
@@ -409,8 +482,14 @@ func (r *c31Rig) deliver(ifc *c31Iface, src ethernet.MACAddr, raw []byte) error 
 func (r *c31Rig) advance(to time.Time, inclusive bool, each func(now time.Time)) {
 	for {
 		var next *c31Ticker
+		r.refreshDead()
 		for _, t := range r.adj {
-			if t == nil || t.dead {
+			if t != nil && !t.dead && t.rider != nil && !t.never {
+				c31Inconclusive("an adjacency checker waits on a live ticker whose own checker has ended: the harness cannot drive it")
+			}
+		}
+		for _, t := range r.adj {
+			if t == nil || t.dead || t.rider != nil {
 				continue
 			}
 			if t.next.After(to) || (!inclusive && t.next.Equal(to)) {
@@ -429,7 +508,7 @@ func (r *c31Rig) advance(to time.Time, inclusive bool, each func(now time.Time))
 		for {
 			var due *c31Ticker
 			for _, t := range r.adj {
-				if t != nil && !t.dead && t.next.Equal(at) && (due == nil || t.id < due.id) {
+				if t != nil && !t.dead && t.rider == nil && t.next.Equal(at) && (due == nil || t.id < due.id) {
 					due = t
 				}
 			}
@@ -446,6 +525,21 @@ func (r *c31Rig) advance(to time.Time, inclusive bool, each func(now time.Time))
 	r.clk.setNow(to)
 }
 
+// refreshDead marks the entries whose checker goroutine has ended. A ticker whose owner has ended but which still
+// has riders stays in play as long as it has not been stopped.
+func (r *c31Rig) refreshDead() {
+	for _, t := range r.adj {
+		if t == nil || t.dead {
+			continue
+		}
+		select {
+		case <-t.n.done:
+			t.dead = true
+		default:
+		}
+	}
+}
+
 func (r *c31Rig) fire(t *c31Ticker, at time.Time) {
 	timer := time.NewTimer(c31RealDeadline)
 	defer timer.Stop()
@@ -460,13 +554,7 @@ func (r *c31Rig) fire(t *c31Ticker, at time.Time) {
 	// (n.done is only ever closed by the checker itself, inside a tick body)
 	deadline := time.Now().Add(c31RealDeadline)
 	for i := 0; ; i++ {
-		if !t.dead {
-			select {
-			case <-t.n.done:
-				t.dead = true
-			default:
-			}
-		}
+		r.refreshDead()
 		want := r.liveAdj()
 		total, parked := c31AdjCheckers()
 		if total == want && parked == want {
